@@ -1341,6 +1341,14 @@ func (in *Interp) fieldAddr(fr *frame, pv Value, field int) Value {
 		if p, ok := (*ptr.P).(Poison); ok {
 			return in.usePoison(p)
 		}
+		switch m := (*ptr.P).(type) {
+		case BigV:
+			return in.notEncodable("%s reaches inside an abstract big integer (%s): this method is not part of the big-integer model", fr.fn, m.Kind)
+		case HashV:
+			return in.notEncodable("%s reaches inside a modelled hash object (%s): this method is not part of the hash model", fr.fn, m.Kind)
+		case *NativeV:
+			return in.notEncodable("%s reaches inside an engine-native object (%s)", fr.fn, m.Kind)
+		}
 		panic(fmt.Sprintf("engine: FieldAddr on pointer to %T", *ptr.P))
 	}
 	return PtrV{P: &st[field]}
